@@ -291,12 +291,25 @@ class Recorder:
         raise self.new_exc(cls, idx)
 
 
-def _component(rec, idx, shape, asgi, twin):
-    """A middleware component implementing exactly the methods in `shape`."""
+SLOT_STYLES = ('plain', 'async_only', 'both')
+
+
+def slot_styles(idx, variant):
+    """How component idx implements each method slot, picked by `variant`: 'plain' (the plain name: a sync
+    method on WSGI, a coroutine on ASGI), 'async_only' (only the *_async name) or 'both' (twins: a sync plain
+    method and an *_async coroutine).  Odd variants mix styles slot by slot within a component."""
+    if not variant & 1:
+        return {'req': 'plain', 'rsrc': 'plain', 'resp': 'plain'}
+    v = (variant >> 1) + 5 * idx
+    return {'req': SLOT_STYLES[v % 3], 'rsrc': SLOT_STYLES[(v // 3 + 1) % 3], 'resp': SLOT_STYLES[(v // 9 + 2) % 3]}
+
+
+def _component(rec, idx, shape, asgi, styles):
+    """A middleware component implementing exactly the method slots in `shape`, each slot in its own style.
+    On ASGI a slot runs its *_async method if there is one, else the plain coroutine; on WSGI the plain method
+    runs and *_async is ignored (so an 'async_only' slot is given as twins there)."""
     d = {}
     if asgi:
-        sfx = '_async' if twin else ''
-
         async def process_request(self, req, resp):
             rec.perform('req', rec.log('req', idx), resp)
 
@@ -312,8 +325,9 @@ def _component(rec, idx, shape, asgi, twin):
             return f
         for key, fn in (('req', process_request), ('rsrc', process_resource), ('resp', process_response)):
             if key in shape:
-                d[fn.__name__ + sfx] = fn
-                if twin:
+                st = styles[key]
+                d[fn.__name__ + ('' if st == 'plain' else '_async')] = fn
+                if st == 'both':
                     d[fn.__name__] = wrong(fn.__name__)
     else:
         def process_request(self, req, resp):
@@ -330,7 +344,7 @@ def _component(rec, idx, shape, asgi, twin):
         for key, fn in (('req', process_request), ('rsrc', process_resource), ('resp', process_response)):
             if key in shape:
                 d[fn.__name__] = fn
-                if twin:
+                if styles[key] != 'plain':
                     d[fn.__name__ + '_async'] = wrong_async
     return type('Comp%d' % idx, (), d)()
 
@@ -528,8 +542,7 @@ class Session:
         self.rec = rec = _Cur()
         self.nregs = 0
         self.objs = {}
-        twin = bool(variant & 1)
-        comps = [_component(rec, j + 1, set(s), asgi, twin) for j, s in enumerate(cfg['shape'])]
+        comps = [_component(rec, j + 1, set(s), asgi, slot_styles(j + 1, variant)) for j, s in enumerate(cfg['shape'])]
         App = falcon.asgi.App if asgi else falcon.App
         if variant & 2:
             app = App(independent_middleware=cfg['indep'])
@@ -584,7 +597,7 @@ class Session:
             run = [r]
             while self.variant & 16 and k + len(run) < len(regs) and regs[k + len(run)].get('obj') == o:
                 run.append(regs[k + len(run)])
-            if len(run) > 1:
+            if len(run) > 1 or self.variant & 32:       # tuple form (also for a single class)
                 self.app.add_error_handler(tuple(cl[x['cls']] for x in run), self.objs[o])
             else:
                 self.app.add_error_handler(cl[r['cls']], self.objs[o])
@@ -1211,6 +1224,10 @@ def wrong_designs(ctx, env, names):
     ctx.extra.setdefault('wrong_designs_rejected', []).extend(names)
 
 
+def _own0(own):
+    return own if isinstance(own, str) else own[0]
+
+
 def replay_behaviours(ctx, own, behaviours, both, seen_other, label, rich=False):
     """Leg A: every TLC session is run on a real application object (registrations and requests in the
     session's order) and each request is compared with what the specification says."""
@@ -1237,12 +1254,12 @@ def replay_behaviours(ctx, own, behaviours, both, seen_other, label, rich=False)
                 if exp_final['fallback']:
                     ctx.extra['render_fallbacks_replayed'] = ctx.extra.get('render_fallbacks_replayed', 0) + 1
                 q = {'reg': regs[:nregs], 'calls': exp_calls}
-                ctx.case(case, nontrivial=(nontrivial_c03(cfg, exp_calls) if own == 'P3' else nontrivial_c04(q) or ri > 0),
+                ctx.case(case, nontrivial=(nontrivial_c03(cfg, exp_calls) if _own0(own) == 'P3' else nontrivial_c04(q) or ri > 0),
                          key=digest([cfg, regs, [x[:3] for x in reqs[:ri + 1]], asgi]))
                 n += 1
                 full = dict(case, request=ri + 1, spec_calls=exp_calls, spec_final=exp_final, got_calls=rec.calls, got_final=got)
                 if rec.wrong or res.errors:
-                    ctx.violation(own + ':protocol', full, 'harness anomaly %r / protocol errors %r' % (rec.wrong, res.errors))
+                    ctx.violation(_own0(own) + ':protocol', full, 'harness anomaly %r / protocol errors %r' % (rec.wrong, res.errors))
                     break
                 diffs = compare(exp_calls, exp_final, rec.calls, got) + faithful(rec, res, got)
                 for clause, what in diffs:
